@@ -126,6 +126,16 @@ func seqCase(cfg fw.Config, rec *fw.Rec, idx int) {
 		}
 		m := gen.Rebuild(r, mc.Message)
 		in := match.Bindings(gen.Rebuild(r, mc.In).(map[string]interface{}))
+		if e%3 == 1 {
+			// values as they look in memory after an action produced them: Go ints, float32s,
+			// match.Bindings for nested maps; the snapshots below are type-preserving
+			mk := func(x map[string]interface{}) interface{} { return match.Bindings(x) }
+			m = gen.GoTyped(r, m, mk, true)
+			in = match.Bindings(gen.GoTyped(r, map[string]interface{}(in), mk, true).(map[string]interface{}))
+			if e == 1 {
+				rec.Bucket("go_typed_message_evaluations")
+			}
+		}
 		pSnap, mSnap, inSnap := fw.Deep(p), fw.Deep(m), fw.Deep(in)
 		o, bss, panicked := eval(rec, mc, p, m, in)
 		if panicked {
@@ -230,10 +240,14 @@ func conc(cfg fw.Config, rec *fw.Rec) {
 		pSnap, inSnap := fw.Deep(shared), fw.Deep(sharedIn)
 		msgs := make([]interface{}, G)
 		want := make([]outcome, G)
+		sharedMsg := gen.Rebuild(r, mc.Message)
 		for g := 0; g < G; g++ {
-			if g%2 == 0 {
+			switch {
+			case round%2 == 0 && g%4 < 2:
+				msgs[g] = sharedMsg // one message object read by several goroutines
+			case g%2 == 0:
 				msgs[g] = gen.Rebuild(r, mc.Message)
-			} else {
+			default:
 				msgs[g] = gen.Value(r, 3)
 			}
 			o, _, panicked := eval(rec, mc, fw.Deep(shared), msgs[g], match.Bindings(fw.Deep(mc.In).(map[string]interface{})))
@@ -268,6 +282,9 @@ func conc(cfg fw.Config, rec *fw.Rec) {
 		if d := fw.Diff(pSnap, shared); d != "" {
 			rec.Violation("C03:pattern-modified", "shared pattern modified: "+d, mc)
 		}
+		if round%2 == 0 {
+			rec.Bucket("concurrent_rounds_sharing_a_message")
+		}
 		if d := fw.Diff(inSnap, sharedIn); d != "" {
 			rec.Violation("C03:bindings-modified", "shared bindings modified: "+d, mc)
 		}
@@ -281,10 +298,10 @@ func Run(cfg fw.Config, rec *fw.Rec) {
 	rec.Rule = "each case is evaluated R times (48 quick / 192 thorough) with pattern, message and bindings rebuilt each time with a different map insertion order (all permutations of the top-level pattern map when it has 2-3 keys, random for nested maps); the canonical multiset of results and error/non-error outcome must coincide, inputs must be deep-equal to their snapshots after every call, results must be distinct map objects; concurrent part: 32 goroutines x one shared pattern object under -race; non-trivial = some evaluation returned a result; distinct by canonical (pattern,message,bindings)"
 	rec.Assume = []string{"Go iterates a small map in a rotation of its insertion order: varying insertion order plus repetition covers the iteration orders of maps with <= 8 keys", "the race detector reports only races that occur in the produced interleavings"}
 	if cfg.Part == "conc" {
-		rec.Required = []string{"concurrent_rounds"}
+		rec.Required = []string{"concurrent_rounds", "concurrent_rounds_sharing_a_message"}
 		conc(cfg, rec)
 		return
 	}
-	rec.Required = []string{"family_repeated_structured", "family_invalid_and_nonmatching", "family_array_of_maps", "family_nested_repeated", "family_generated", "independence_checked", "all_insertion_orders_of_top_level_pattern_map"}
+	rec.Required = []string{"family_repeated_structured", "family_invalid_and_nonmatching", "family_array_of_maps", "family_nested_repeated", "family_generated", "independence_checked", "all_insertion_orders_of_top_level_pattern_map", "go_typed_message_evaluations"}
 	fw.Parallel(cfg.Workers, cfg.Pick(30000, 400000), func(w, idx int) { seqCase(cfg, rec, idx) })
 }
